@@ -166,7 +166,7 @@ struct Exec {
 		}
 		if(b.arena != Cfg::arena_of(a.get_allocator())) {
 			fail("I1-foreign-arena", who + ": block lives in arena" + std::to_string(b.arena) + " but get_allocator() is on arena" + std::to_string(Cfg::arena_of(a.get_allocator())));
-			return false;
+			// the array is otherwise well formed: keep checking (and counting) it
 		}
 		if constexpr(ET::tracked) {
 			for(long k = 0; k < ne; ++k) {
@@ -396,6 +396,15 @@ struct Exec {
 			bool ctx      = fault_ctx;
 			if(v.inv == "I1-leaked-block" && leak_in_faulted_step_) ctx = true;
 			R.property = attribute(v.inv, op.kind, ctx);
+			for(std::size_t q = 1; q < W.viol.size(); ++q) {
+				Violation const& x = W.viol[q];
+				bool dup = x.inv == v.inv;
+				for(auto const& y : R.extra) dup |= y.inv == x.inv;
+				if(dup) continue;
+				bool cx = fault_ctx;
+				if(x.inv == "I1-leaked-block" && leak_in_faulted_step_) cx = true;
+				R.extra.push_back({x.inv, x.detail, attribute(x.inv, op.kind, cx)});
+			}
 		};
 
 		if(wrong_exc) fail("WRONG-EXCEPTION", "an exception that is neither the injected fault nor bad_alloc reached the caller: " + threw_what_);
@@ -477,7 +486,8 @@ struct Exec {
 	std::string threw_what_;
 	bool run_real_guarded(Op const& op, bool& threw, bool& wrong) {
 		bool done = false;
-		W.begin_op();
+		for(auto& c : W.fcnt) c = 0;
+		for(auto& c : W.ev) c = 0;
 		try {
 			done = run_real(op);
 		} catch(injected_fault const&) {
